@@ -189,3 +189,14 @@ func Caught(f func()) (panicked bool, kind string) {
 
 func SetGhost(name string, v any) {}
 func Ghost(name string) any       { return nil }
+
+// BigFixed returns the low n bytes of |x| and whether x fits into n bytes.
+func BigFixed(x *big.Int, n int) ([]byte, bool) {
+	b := x.Bytes()
+	if len(b) > n {
+		return b[len(b)-n:], false
+	}
+	out := make([]byte, n)
+	copy(out[n-len(b):], b)
+	return out, true
+}
